@@ -40,4 +40,4 @@ LEVEL_TEXT = ('Bounded symbolic verification of the real DirectSolver{Give,Take}
               '(2) the assembled matrix equals the operator row by row for ALL coefficients and spacings. Grid shapes are bounded.')
 LEVEL_NOTE = 'exact arithmetic; solve with numeric small-rational coefficient sets, matrix assembly with symbolic coefficients; shapes bounded; MUMPS variants not built'
 TECHNIQUE = 'symbolic execution of LLVM IR (llsym) + SMT (cvc5 QF_LRA for the solve, z3 QF_NRA for the assembled matrix)'
-DESIGN_REF = 'DESIGN.md section 6/C04'
+DESIGN_REF = 'DESIGN.md section 0 (status as built: 0.2, 0.5, 0.6) and section 6/C04 (design)'
